@@ -106,3 +106,73 @@ def last_marker(ctx, F):
     ctx.ob(R, "last-marker-wins|scan", ok, "search_substring yields the last occurrence at or after start_pos", ss.where(),
            what="Reader::search_substring %s: with two markers in the scanned tail (a short last revision, or marker text inside a "
                 "string/stream near the end) the older cross-reference data is used" % (why or "does not yield the last occurrence"))
+
+
+def xref_max_id(ctx, F):
+    """Xref::max_id is the highest object number of ANY entry of the table (in use, free or compressed): it sizes the table on
+    load, and every allocator and the saved /Size derive from it.  Structurally: the maximum (or last key) of the key set
+    of `entries`, without looking at the entry values and without using the number of entries."""
+    R = "R-TABLE"
+    b = F.fn("Xref::max_id")
+    scope = F.with_closures(b)
+    keymax = any(re.search(r"(Iterator::max|BTreeMap::<.*>::last_key_value|Iterator::last|next_back)$", c.fn or "") for b2 in scope for c in b2.calls)
+    keys = any(re.search(r"BTreeMap::<.*>::(keys|last_key_value|iter|into_keys)$", c.fn or "") for b2 in scope for c in b2.calls)
+    uses_len = any(re.search(r"BTreeMap::<.*>::len$", c.fn or "") for b2 in scope for c in b2.calls)
+    looks_at_entries = any(c.local and re.search(r"XrefEntry::", c.cname) for b2 in scope for c in b2.calls) or \
+        any(st.get("rv") and st["rv"]["k"] == "discr" and "XrefEntry" in b2.lty(st["rv"]["p"]["l"]) for b2 in scope for _bi, _si, st in b2.stmts())
+    ctx.ob(R, "xref-max-id-is-max-key", keymax and keys and not uses_len and not looks_at_entries, "Xref::max_id is the maximum key of `entries`", b.where(),
+           what="Xref::max_id is not the maximum object number over all entries (uses len(): %s, inspects entry kinds: %s): after loading a table with gaps or "
+                "compressed/free entries at the top, Document.max_id is below existing object numbers (new objects collide, the saved table omits objects)"
+                % (uses_len, looks_at_entries))
+
+
+def prev_not_carried(ctx, F):
+    """the Prev chain is consumed while loading: the trailer that becomes Document.trailer no longer has /Prev (a plain save of the
+    loaded document would otherwise point /Prev at an offset of the OLD file)."""
+    rd = F.fn("Reader::read")
+    rm = [c for c in rd.calls if c.local and c.cname.endswith("Dictionary::remove") and lib._const_bytes_through(rd, c.args[1]) == b"Prev"]
+    st = [(bi, si) for bi, si, s_ in lib.stores_to_field(rd, "trailer", "Document") if si != "T" and not rd.blocks[bi].get("cleanup")]
+    ok = False
+    if len(rm) >= 1 and st:
+        tl = lib.origin_local(F, rd, rm[0].args[0])
+        src = rd.blocks[st[0][0]]["st"][st[0][1]]["rv"]
+        so = lib.origin_local(F, rd, src["o"]) if src["k"] == "use" else None
+        ok = tl is not None and so is not None and tl[1] == so[1] and all(rd.dominates(rm[0].bb, bi) for bi, _ in st)
+    ctx.ob("R-ORDER", "prev-removed-from-loaded-trailer", ok, "Reader::read removes Prev from the trailer it installs as Document.trailer", rd.where(),
+           what="Reader::read keeps /Prev in the trailer of the loaded document: Document::save writes a self-contained file whose trailer points /Prev into the middle of an unrelated object")
+
+
+def no_early_object_reads(ctx, F):
+    """before `document.objects` is assigned, Reader::read must not ask the Document anything that is answered from `objects`
+    (e.g. whether the file is encrypted: the Encrypt entry is a reference, and resolving it needs the objects)."""
+    rd = F.fn("Reader::read")
+    st = [bi for bi, si, s_ in lib.stores_to_field(rd, "objects", "Document") if not rd.blocks[bi].get("cleanup")]
+    early = []
+    for c in rd.calls:
+        if not (c.local and c.name in F.bodies and c.cname.startswith("Document::")):
+            continue
+        if not st or any(rd.dominates(x, c.bb) for x in st):
+            continue
+        # does the callee (transitively) read Document.objects?
+        reads = False
+        for q in F.reach([c.name]):
+            qb = F.bodies[q]
+            for bi, si, s_ in qb.stmts():
+                def has(pl):
+                    return any(isinstance(e, dict) and e.get("n") == "objects" and str(e.get("adt", "")).endswith("Document") for e in pl["p"])
+                rv = s_.get("rv") or {}
+                for key in ("p",):
+                    if key in rv and isinstance(rv[key], dict) and "p" in rv[key] and has(rv[key]):
+                        reads = True
+                o = rv.get("o")
+                if isinstance(o, dict):
+                    pl = o.get("c") or o.get("m")
+                    if pl and has(pl):
+                        reads = True
+            if reads:
+                break
+        if reads:
+            early.append("%s (line %d)" % (c.cname, c.ln))
+    ctx.ob("R-ORDER", "no-object-reads-before-objects-loaded", not early, "no Document query that depends on `objects` runs before the objects are loaded", rd.where(),
+           what="Reader::read calls %s before document.objects is filled: the answer is computed from an empty object table "
+                "(an encrypted file is taken for unencrypted and its object streams are parsed as ciphertext and dropped)" % early)
